@@ -244,7 +244,9 @@ const PAYLOAD: &[&str] = &["alpha", "beta", "gamma delta", "", "x y z", "ünï"]
 
 fn e2e_strategy() -> BoxedStrategy<E2eCase> {
     let t = (
-        prop_oneof![5 => Just(0u8), 2 => Just(1u8)],
+        // 0 exits with a code, 1 kills its own shell, 2 prints and then hangs until the document
+        // limit (2 s) aborts it
+        prop_oneof![5 => Just(0u8), 2 => Just(1u8), 1 => Just(2u8)],
         prop_oneof![4 => Just(0u8), 1 => Just(1u8), 1 => Just(2u8), 1 => 3u8..=255],
         // signals that are never inherited as ignored (a background job inherits SIGINT / SIGQUIT
         // ignored, nohup SIGHUP: such a signal would not end the shell)
@@ -277,6 +279,19 @@ fn e2e_strategy() -> BoxedStrategy<E2eCase> {
             if cram {
                 for t in tests.iter_mut() {
                     t.stream = 3; // Cram: always the combined stream, no inline configuration
+                    if t.ending == 2 {
+                        t.ending = 0; // single script: a timeout is not attributed test by test
+                    }
+                }
+            }
+            // at most one hanging command per case (each costs the document limit)
+            let mut hang_seen = false;
+            for t in tests.iter_mut() {
+                if t.ending == 2 {
+                    if hang_seen {
+                        t.ending = 0;
+                    }
+                    hang_seen = true;
                 }
             }
             E2eCase { tests, cram, doc_stream: if cram { 0 } else { doc_stream } }
@@ -290,11 +305,16 @@ fn check_e2e(c: &E2eCase) -> V {
         Err(e) => return inconclusive(&format!("scratch dir: {e}")),
     };
     let mut doc = if c.cram { String::new() } else { String::from("# C05 end to end\n\n") };
-    if c.doc_stream != 0 {
-        doc = format!(
-            "---\ndefaults:\n  output_stream: {}\n---\n\n{doc}",
-            ["", "stdout", "stderr", "combined"][c.doc_stream as usize]
-        );
+    let hangs = c.tests.iter().any(|t| t.ending == 2);
+    if !c.cram && (c.doc_stream != 0 || hangs) {
+        let mut fm = String::from("---\n");
+        if hangs {
+            fm.push_str("total_timeout: 2s\n");
+        }
+        if c.doc_stream != 0 {
+            fm.push_str(&format!("defaults:\n  output_stream: {}\n", ["", "stdout", "stderr", "combined"][c.doc_stream as usize]));
+        }
+        doc = format!("{fm}---\n\n{doc}");
     }
     // model
     let mut expected_kinds: Vec<&'static str> = vec![];
@@ -341,6 +361,7 @@ fn check_e2e(c: &E2eCase) -> V {
             doc.push_str(&format!("test {i}\n  $ cat '{}'; cat '{}' >&2\n", fo.display(), fe.display()));
             match t.ending {
                 0 => doc.push_str(&format!("  > (exit {})\n", t.code)),
+                2 => doc.push_str("  > sleep 20\n"),
                 _ => doc.push_str(&format!("  > kill -{} $$\n", t.signal)),
             }
             for e in &exps {
@@ -354,6 +375,7 @@ fn check_e2e(c: &E2eCase) -> V {
             doc.push_str(&format!("## test {i}\n\n```scrut{cfg}\n$ cat '{}'; cat '{}' >&2\n", fo.display(), fe.display()));
             match t.ending {
                 0 => doc.push_str(&format!("> (exit {})\n", t.code)),
+                2 => doc.push_str("> sleep 20\n"),
                 _ => doc.push_str(&format!("> kill -{} $$\n", t.signal)),
             }
             for e in &exps {
@@ -367,7 +389,7 @@ fn check_e2e(c: &E2eCase) -> V {
         }
         let kind = if dead {
             "not_success"
-        } else if t.ending == 1 {
+        } else if t.ending == 1 || t.ending == 2 {
             dead = true;
             "not_success"
         } else if t.code as i32 != t.expected.map(|x| x as i32).unwrap_or(0) {
@@ -381,17 +403,23 @@ fn check_e2e(c: &E2eCase) -> V {
     }
     let path = dir.path().join(if c.cram { "doc.t" } else { "doc.md" });
     std::fs::write(&path, &doc).ok();
-    let run = match run_scrut(&dir, &["test", "-r", "json", "--no-color", path.to_str().unwrap()], 60) {
+    let mut argv = vec!["test", "-r", "json", "--no-color", path.to_str().unwrap()];
+    if c.cram && hangs {
+        argv.extend(["--timeout-seconds", "2"]);
+    }
+    let run = match run_scrut(&dir, &argv, 60) {
         Ok(r) => r,
         Err(e) => return inconclusive(&format!("scrut did not run: {e}")),
     };
     let any_signal = c.tests.iter().any(|t| t.ending == 1);
+    let any_signal_or_hang = any_signal || hangs;
     let v = V::pass()
-        .nt(any_signal
+        .nt(any_signal_or_hang
             || c.tests.iter().any(|t| t.stream >= 2)
             || c.doc_stream >= 2
             || expected_kinds.contains(&"invalid_exit_code"))
         .label_if(any_signal, "signal_killed_command")
+        .label_if(hangs, "command_aborted_by_the_document_limit")
         .label_if(c.cram, "cram")
         .label_if(c.doc_stream != 0 && c.tests.iter().any(|t| t.stream != 0 && t.stream != c.doc_stream), "stream_set_in_document_and_test")
         .label_if(expected_kinds.contains(&"invalid_exit_code"), "wrong_exit_code")
@@ -401,7 +429,7 @@ fn check_e2e(c: &E2eCase) -> V {
         Ok(k) => k,
         Err(e) => {
             // an execution error (exit 1, no report) is an acceptable way of not reporting success
-            if any_signal && run.code == Some(1) {
+            if any_signal_or_hang && run.code == Some(1) {
                 return v.label("run_aborted_with_error");
             }
             return V::fail(format!(
